@@ -19,7 +19,7 @@ RULE = ("many short runs (5-40 stored points): dimensions 2-6, ||L|| dt in [0.02
         "with/without RWA blocks, initial states mixed/pure/population-only, Hamiltonians with degenerate levels; Lindblad forms with 1-3 random real operators; "
         "Redfield/Foerster/combined tensors from C01's generator (trace and Hermiticity; exponential agreement for the time-independent ones); Lorentzian and "
         "Gaussian pure dephasing (symmetric rate matrices; trace, Hermiticity and agreement with the exactly integrated splitting scheme); closed systems: density-matrix and state-vector propagators, "
-        "laboratory vs rotating frame. distinct = (class, dim, method, Nref, form, RWA, dephasing type, state class, rounded generator); non-trivial iff the "
+        "laboratory vs rotating frame with two or three rotating-wave blocks (non-equidistant block means), every fourth Hamiltonian complex Hermitian. distinct = (class, dim, method, Nref, form, RWA, dephasing type, state class, rounded generator); non-trivial iff the "
         "state moves by more than 100x the bound over the run (so that a wrong order or a wrong generator is visible).")
 ASSUMPTIONS = ["the bound is ||rho_n - exact|| <= m M^2 loc (1+loc)^m ||rho_0||, loc = x^(L+1)/(L+1)! e^x, x = ||L||_2 dt, M = max_k ||expm(L dt)^k||_2 computed "
                "by the oracle; a better integrator than the Taylor polynomial would pass as well",
@@ -241,6 +241,12 @@ def run_case(case, ctx):
         from quantarhei.qm.propagators.svpropagator import StateVectorPropagator
         dim = case["dim"]
         Hd = numpy.array(case["H"], dtype=float)
+        if case["seed"] % 4 == 2:
+            # Hermitian Hamiltonian with complex couplings (the same moduli, random phases)
+            prng = numpy.random.default_rng(case["seed"] + 11)
+            ph = numpy.exp(1j * numpy.triu(prng.uniform(0.2, 2.9, size=(dim, dim)), 1))
+            ph = numpy.triu(ph, 1)
+            Hd = numpy.diag(numpy.diag(Hd)).astype(complex) + numpy.triu(Hd, 1) * ph + (numpy.triu(Hd, 1) * ph).conj().T
         split = case["rwa_split"]
         # two or three rotating-wave blocks; the block mean energies of three blocks are not equidistant
         rwab = [0, split]
@@ -263,7 +269,9 @@ def run_case(case, ctx):
         psi0 = rng.normal(size=dim) + 1j * rng.normal(size=dim)
         psi0 /= numpy.linalg.norm(psi0)
         rho0 = numpy.outer(psi0, psi0.conj())
-        det = {"dim": dim, "order": order, "Nref": nref, "Nt": case["Nt"], "dt": case["dt"], "work_per_step": nref * order, "rwa_blocks": [list(b_) for b_ in blocks]}
+        det = {"dim": dim, "order": order, "Nref": nref, "Nt": case["Nt"], "dt": case["dt"], "work_per_step": nref * order, "rwa_blocks": [list(b_) for b_ in blocks], "complex_H": bool(numpy.iscomplexobj(Hd))}
+        if numpy.iscomplexobj(Hd):
+            ctx.event("closed_cases_with_complex_hermitian_hamiltonian")
         # ---- (1) no RWA: everything in the frame of Hd
         with ctx.lib("closed-system propagation (no RWA)", mechanism=None):
             H1 = qr.Hamiltonian(data=Hd.copy())
@@ -350,7 +358,7 @@ def run_case(case, ctx):
             labpsi[k] = U @ psi0
             lab[k] = U @ rho0 @ U.conj().T
         # truncation bound in the rotating frame (block averages removed)
-        e = numpy.diag(Hlab)
+        e = numpy.real(numpy.diag(Hlab))
         blk = numpy.zeros(dim)
         for (lo_, hi_) in blocks:
             blk[lo_:hi_] = numpy.mean(e[lo_:hi_])
